@@ -1261,6 +1261,454 @@ def sequences(rng, n):
     return cases
 
 
+# ---------------------------------------------------------------------------- round 3 generators
+
+_SALT = [0]
+
+
+def fresh(prefix="k"):
+    """a key segment no other case of this run uses: what a process-wide table keyed by key or
+    tag text remembers about it can only come from the calls of the same case"""
+    _SALT[0] += 1
+    return "%s%d" % (prefix, _SALT[0])
+
+
+def tag_text(key, o, style="plain"):
+    """the tag value as go-zero parses it back to (key, o); styles exercise parseSegments / parseOption"""
+    sep = ", " if style == "spaces" else ","
+    eq = "= " if style == "spaces" else "="
+    segs = [key]
+    if o:
+        if o["opt"]:
+            segs.append("optional" if o["dep"] is None else "optional=%s%s" % ("!" if o["neg"] else "", o["dep"]))
+        if o["def"] is not None:
+            segs.append("default" + eq + o["def"].replace(",", "\\,"))
+        if o["range"]:
+            r = o["range"]
+            segs.append("range" + eq + ("[" if r["li"] else "(") + (r["l"] or "") + ":" + (r["r"] or "") + ("]" if r["ri"] else ")"))
+        if o["options"]:
+            if style == "bracket":
+                segs.append("options" + eq + "[" + ",".join(o["options"]) + "]")
+            else:
+                segs.append("options" + eq + "|".join(o["options"]))
+        if o["str"]:
+            segs.append("string")
+    if style == "omitempty":
+        segs.append("omitempty")
+    if style == "emptyseg":
+        segs.insert(1, "")
+        if len(segs) == 2:
+            segs.append("")
+    if style == "emptyoptions":
+        segs.append("options=")
+    if style == "trailing":
+        return sep.join(segs) + ","
+    return sep.join(segs)
+
+
+SOME_NONE = O()     # an option set with nothing in it: `json:"a,omitempty"` (options != nil in Go)
+
+
+def multi(key, t, specs):
+    """a field carrying one tag per unmarshaller kind: specs = {tag: options or None}"""
+    return {"key": key, "t": t, "o": None, "tags": {tag: {"key": key, "o": copy.deepcopy(o)} for tag, o in specs.items()}}
+
+
+def nested_doc(key, v):
+    """the value at the end of the dotted path"""
+    segs = [x for x in key.split(".") if x]
+    for seg in reversed(segs[1:]):
+        v = dobj([(seg, v)])
+    return segs[0], v
+
+
+CHAINED_KINDS = ["json", "key", "jsonmap", "jsonreader", "httpx-json"]
+OPAQUE_KINDS = ["form", "path", "httpx-form", "httpx-path", "okey", "ojson"]
+STRINGY = ("form", "path", "header", "httpx-form", "httpx-path", "httpx-header", "dform")
+
+
+def scalar_for(mode, lit):
+    v = ds(lit) if mode in STRINGY else dn(lit)
+    return {"a": [v]} if mode in ("form", "httpx-form", "dform") else v
+
+
+def key_templates():
+    return ["{s}.b", "{s}.b.c", "{s}..b", ".{s}.b", "{s}.b.", "{s}.\u043a\u043b\u044e\u0447", "{s}-b.c-d", "{s}.b.c.d.e",
+            "{s}.{s}", "{s}. b"]
+
+
+def crosskind(rng, n):
+    """calls of different unmarshaller kinds in ONE process on the same key text / tag text /
+    struct type, in both orders; every call is judged on its own document"""
+    cases = []
+    i = P("int")
+
+    def call(mode, fields, pairs, **kw):
+        c = {"mode": mode, "type": St(*copy.deepcopy(fields)), "doc": dobj(pairs)}
+        c.update(kw)
+        return c
+
+    def docs_for(mode, key, how, lit):
+        """how: nested / literal / both / none / shadow (first segment present, not an object)"""
+        if how == "none":
+            return []
+        if mode in STRINGY or how == "literal":
+            return [(key, scalar_for(mode, lit))] if how in ("literal", "both", "nested") or mode in STRINGY else []
+        k0, v = nested_doc(key, scalar_for(mode, lit))
+        if how == "nested":
+            return [(k0, v)]
+        if how == "both":
+            return [(k0, v), (key, scalar_for(mode, "3"))]
+        return [(k0, scalar_for(mode, "1"))]
+
+    combos = []
+    for tmpl in key_templates():
+        for order in (0, 1):
+            for req in (False, True):
+                combos.append((tmpl, order, req))
+    rng.shuffle(combos)
+    for tmpl, order, req in combos[:n]:
+        s0 = fresh()
+        key = tmpl.replace("{s}", s0)
+        o = O(opt=not req, range=R("[1:100]"))
+        sib = F(fresh("z"), i, O(opt=True))
+        fields = [F(key, i, o), sib] if rng.random() < 0.5 else [sib, F(key, i, o)]
+        chained = rng.choice(CHAINED_KINDS)
+        opaque = rng.choice(OPAQUE_KINDS)
+        first, second = (chained, opaque) if order == 0 else (opaque, chained)
+        steps = []
+        for mode in (first, second, first, second):
+            how = rng.choice(["nested", "nested", "literal", "both", "none", "shadow"])
+            lit = rng.choice(["7", "7", "1000", "0", "100", "1"])
+            steps.append(call(mode, fields, docs_for(mode, key, how, lit), direct=rng.random() < 0.5))
+        # the decisive pair is always there: the chained kind supplies the nested member, the opaque kind the
+        # parameter of that name, once inside and once outside the range
+        lit1, lit2 = rng.choice([("7", "1000"), ("1000", "7"), ("1000", "1000"), ("7", "7")])
+        steps[0] = call(first, fields, docs_for(first, key, "nested", lit1))
+        steps[1] = call(second, fields, docs_for(second, key, "nested", lit2))
+        cases.append(finish({"mode": "seq", "procs1": rng.random() < 0.5, "steps": steps, "intent": "crosskind"}))
+
+    # one struct TYPE read by several kinds (every tag on every field), a key that is a prefix of
+    # another, the same tag text under different tag keys and on fields of different names
+    for k in range(max(4, n // 3)):
+        s0 = fresh()
+        specs = lambda o: {t: o for t in ("json", "form", "path", "header", "key")}
+        fields = [multi(s0, St(F("b", i, O(opt=True))) if k % 2 else i, specs(O(opt=True))),
+                  multi(s0 + ".b", i, specs(O(opt=True, range=R("[1:100]")))),
+                  multi(s0 + ".b.c", P("string"), specs(O(opt=True, options=["x", "y"])))]
+        steps = []
+        kinds = rng.sample(["json", "form", "path", "key", "httpx-json", "httpx-form", "httpx-path", "header", "okey"], 4)
+        for mode in kinds + kinds[:2]:
+            pairs = []
+            lit = rng.choice(["7", "1000"])
+            word = rng.choice(["x", "q"])
+            if mode in STRINGY or mode in ("okey",):
+                if rng.random() < 0.7:
+                    pairs.append((s0 + ".b", scalar_for(mode, lit)))
+                if rng.random() < 0.5:
+                    pairs.append((s0 + ".b.c", {"a": [ds(word)]} if mode in ("form", "httpx-form") else ds(word)))
+                if k % 2 == 0 and rng.random() < 0.3:
+                    pairs.append((s0, scalar_for(mode, "5")))
+            else:
+                inner = []
+                if rng.random() < 0.7:
+                    inner.append(("b", dn(lit) if rng.random() < 0.6 else dobj([("c", ds(word))])))
+                if k % 2 == 0 and rng.random() < 0.25:
+                    pairs.append((s0, dn("5")))
+                else:
+                    pairs.append((s0, dobj(inner)))
+                if rng.random() < 0.3:
+                    pairs.append((s0 + ".b", dn(lit)))
+            steps.append(call(mode, fields, pairs, direct=rng.random() < 0.5))
+        cases.append(finish({"mode": "seq", "procs1": k % 2 == 0, "steps": steps, "intent": "crosskind-type"}))
+
+    # "is an absent struct value required?" depends on the tag key (F27: the answer was memoised per type only)
+    shapes = [
+        ({"json": O(opt=True), "form": None}, None),
+        ({"json": None, "form": O(opt=True)}, None),
+        ({"json": O(**{"def": "3"}), "form": None}, None),
+        ({"json": O(opt=True), "form": O(range=R("[1:5]"))}, None),
+        ({"json": O(opt=True, dep="zz", neg=True), "form": O(opt=True)}, None),
+        ({"json": O(opt=True), "form": None, "path": O(opt=True), "header": None, "key": O(**{"def": "1"})}, None),
+    ]
+    for si, (specs, _) in enumerate(shapes):
+        for ptr in (False, True):
+            for order in (0, 1, 2):
+                a = fresh("a")
+                inner = St(multi(a, i, specs))
+                outer = [multi(fresh("in"), Ptr(inner) if ptr else inner, {t: None for t in specs})]
+                tags = list(specs)
+                if order == 1:
+                    tags.reverse()
+                elif order == 2:
+                    rng.shuffle(tags)
+                modes = {"json": rng.choice(["json", "httpx-json", "jsonmap"]), "form": rng.choice(["form", "httpx-form"]),
+                         "path": "path", "header": "header", "key": "key"}
+                steps = [call(modes[t], outer, [], direct=True) for t in tags + tags[:1]]
+                cases.append(finish({"mode": "seq", "procs1": bool(si % 2), "steps": steps, "intent": "required-per-tag"}))
+    return cases
+
+
+def dotted(rng):
+    """chained keys: every further segment is looked up in the object found so far and, failing
+    that, in the enclosing objects; an object found under a name that an outer scope also holds
+    as an object takes the members it lacks from there; "-" skips the field"""
+    cases = []
+    i = P("int")
+
+    def one(mode, fields, doc, intent="dotted"):
+        cases.append(finish({"mode": mode, "type": St(*copy.deepcopy(fields)), "doc": doc, "intent": intent}))
+
+    for mode in ("json", "key", "ojson", "okey"):
+        for opts in (O(range=R("[1:5]")), O(opt=True, range=R("[1:5]")), O(**{"def": "2"}), None):
+            a, b, c = fresh("a"), fresh("b"), fresh("c")
+            key = "%s.%s" % (a, b)
+            fs = [F(key, i, copy.deepcopy(opts))]
+            for lit in ("3", "9"):
+                v = dn(lit)
+                one(mode, fs, dobj([(a, dobj([(b, v)]))]))
+                one(mode, fs, dobj([(a, dobj([])), (b, v)]))                       # falls back to the enclosing object
+                one(mode, fs, dobj([(a, dobj([(b, v)])), (b, dn("4"))]))            # the inner one wins
+                one(mode, fs, dobj([(a, dn("1")), (b, v)]))                         # first segment is not an object
+                one(mode, fs, dobj([(a, NULL), (b, v)]))
+                one(mode, fs, dobj([(key, v)]))                                     # a member named like the whole key
+                one(mode, fs, dobj([(a, dobj([(b, NULL)]))]))
+            key3 = "%s.%s.%s" % (a, b, c)
+            fs3 = [F(key3, i, copy.deepcopy(opts))]
+            one(mode, fs3, dobj([(a, dobj([(b, dobj([(c, dn("3"))]))]))]))
+            one(mode, fs3, dobj([(a, dobj([(b, dobj([])), (c, dn("3"))]))]))        # c one level up
+            one(mode, fs3, dobj([(a, dobj([(b, dobj([]))])), (c, dn("9"))]))        # c two levels up
+            one(mode, fs3, dobj([(a, dobj([])), (b, dobj([(c, dn("3"))]))]))        # b one level up, then c inside it
+            one(mode, fs3, dobj([(a, dobj([(b, dn("1"))])), (c, dn("3"))]))
+    # inside nested struct fields: the enclosing struct objects are scopes too; elements of slices and maps have none
+    for mode in ("json", "key"):
+        a, b, s1 = fresh("a"), fresh("b"), fresh("s")
+        key = "%s.%s" % (a, b)
+        inner = St(F(key, i, O(opt=True, range=R("[1:5]"))))
+        for wrap, mk in ((lambda t: t, lambda x: x), (Ptr, lambda x: x), (Sl, lambda x: {"a": [x]}), (Mp, lambda x: dobj([("m", x)]))):
+            fs = [F(s1, wrap(inner))]
+            for lit in ("3", "9"):
+                one(mode, fs, dobj([(s1, mk(dobj([(a, dobj([(b, dn(lit))]))])))]))
+                one(mode, fs, dobj([(s1, mk(dobj([(a, dobj([]))]))), (b, dn(lit))]))               # b in the outermost object
+                one(mode, fs, dobj([(s1, mk(dobj([(a, dobj([])), (b, dn(lit))])))]))
+        # an object-valued member completed from the outer scope
+        m1 = fresh("m")
+        keym = "%s.%s" % (a, m1)
+        for t, inner_v, outer_v in ((Mp(i), dobj([("x", dn("1"))]), dobj([("y", dn("2")), ("x", dn("7"))])),
+                                    (St(F("x", i), F("y", i, O(opt=True))), dobj([("x", dn("1"))]), dobj([("y", dn("2"))])),
+                                    (St(F("x", i), F("y", i)), dobj([("x", dn("1"))]), dobj([("q", dn("2"))]))):
+            one(mode, [F(keym, t)], dobj([(a, dobj([(m1, copy.deepcopy(inner_v))])), (m1, copy.deepcopy(outer_v))]))
+            one(mode, [F(keym, t)], dobj([(a, dobj([(m1, copy.deepcopy(inner_v))]))]))
+            one(mode, [F(keym, t)], dobj([(a, dobj([])), (m1, copy.deepcopy(outer_v))]))
+    # "-": the field is skipped whatever the document holds (its tag is still parsed, its dependency resolved)
+    for mode in ("json", "form", "path", "header", "key", "httpx-form"):
+        z = fresh("z")
+        v = scalar_for(mode, "5")
+        for o in (None, O(range=R("[1:2]")), O(opt=True), O(opt=True, dep=z), O(opt=True, dep=z, neg=True), O(**{"def": "4"}),
+                  O(range=R("[3:1]"))):
+            fs = [F("-", i, copy.deepcopy(o)), F(z, i, O(opt=True))]
+            one(mode, fs, dobj([("-", v)]), "ignored")
+            one(mode, fs, dobj([(z, v)]), "ignored")
+            one(mode, fs, dobj([]), "ignored")
+        one(mode, [F("s", St(F("-", i)), None)] if mode in ("json", "key") else [F("-", P("string"))], dobj([]), "ignored")
+    return cases
+
+
+def tagsyntax(rng):
+    """the same option set written in the tag with other spacing / notation; option sets that are
+    present but empty (`json:"a,omitempty"`); options with an empty alternative; keys that default to
+    the Go field name"""
+    g = Gen(rng, "quick")
+    cases = []
+    styles = ["spaces", "bracket", "omitempty", "emptyseg", "emptyoptions", "trailing", "plain"]
+    kinds = ["int", "string", "float64", "uint8", "bool", "int64"]
+    n = 0
+    for style in styles:
+        for kind in kinds:
+            for mode in ("json", "form", "key", "header", "httpx-json", "path"):
+                n += 1
+                if n % 3 and style == "plain":
+                    continue
+                o = g.gen_opts(kind, ["b"], mode, force={"str": False})
+                if style == "bracket":
+                    o = o or O()
+                    o["options"] = ["1", "2"] if is_num(kind) else (["true"] if kind == "bool" else ["x", "y y"])
+                if style == "emptyoptions" and o:
+                    o["options"] = None
+                if style in ("omitempty", "emptyseg", "emptyoptions") and o is None:
+                    o = O()
+                if o and o["def"] is not None and ("," in o["def"] or " " in o["def"]) and style == "spaces":
+                    o["def"] = "dflt"
+                fa = F("a", P(kind), o)
+                fa["raw"] = tag_text("a", o, style)
+                if style == "plain":
+                    # the key left out: it defaults to the name of the Go field (F0, F1, ...)
+                    fa["key"] = "F%d" % (n % 2)
+                    fa["raw"] = tag_text("", o)
+                    if o is None:
+                        continue
+                    if o["opt"] and o["dep"]:
+                        o["dep"] = "b"
+                        fa["raw"] = tag_text("", o)
+                fb = F("b", P("int"), O(opt=True))
+                fields = [fb, fa] if fa["key"] == "F1" else [fa, fb]
+                for intent in ("valid", "valid", "range", "option", None):
+                    if intent == "range" and not (o and o["range"]):
+                        continue
+                    if intent == "option" and not (o and o["options"]):
+                        continue
+                    pairs = []
+                    if intent is not None:
+                        pairs.append((fa["key"], g.field_value(fa, mode, intent)))
+                    if rng.random() < 0.5:
+                        pairs.append(("b", scalar_for(mode, "1")))
+                    cases.append(finish({"mode": mode, "type": St(*copy.deepcopy(fields)), "doc": dobj(pairs), "intent": "tag-" + style}))
+    # an empty alternative among the options; options with spaces and non-ASCII letters
+    for mode in ("json", "key", "path", "header"):
+        for opts in (["x", "", "y"], ["a b", "\u00fc", "\u4e2d"], ["", "z"], ["1", "1.0", "+1"]):
+            o = O(options=opts)
+            fa = F("a", P("string"), o)
+            for word in opts + ["nope", "", " "]:
+                if word == "" and mode in ("httpx-form",):
+                    continue
+                cases.append(finish({"mode": mode, "type": St(copy.deepcopy(fa)), "doc": dobj([("a", ds(word))]), "intent": "tag-options"}))
+    return cases
+
+
+BOUNDARY_TEXTS = ["-0", "+5", " 5", "5 ", "05", "0x10", "0o7", "0b1", "1_000", "1e2", "1E2", ".5", "5.", "00", "-", "+", "",
+                  "\u0663", "١٢", "1e400", "-1e400", "3.5e38", "-3.5e38", "NaN", "nan", "Inf", "-Inf", "+Inf",
+                  "infinity", "+Infinity", "-infinity", "INF", "iNf", "infinit", "1e", "e5", "--1", "+-1", "1.2.3", "0.0", "-0.0",
+                  "+0", "9223372036854775807", "9223372036854775808", "-9223372036854775808", "-9223372036854775809",
+                  "18446744073709551615", "18446744073709551616", "255", "256", "-129", "-128", "127", "128", "65535", "65536",
+                  "4294967295", "4294967296", "2147483647", "2147483648", "-2147483649", "true", "T", "t", "TRUE", "yes", "on", "0", "1", "2"]
+
+
+def boundaries(rng, n):
+    """unusual spellings through every string-valued path (form, path, header, the `string` flag,
+    slice elements) on every kind, with and without a range that should stop them"""
+    cases = []
+    combos = [(k, txt, m) for k in KINDS for txt in BOUNDARY_TEXTS
+              for m in ("form", "path", "header", "json-string", "json-elem", "httpx-form", "dform")]
+    rng.shuffle(combos)
+    def fits(kind, txt):
+        # floats: only literals that print back exactly (<= 15 significant digits, <= 6 for float32)
+        if kind not in FLOAT_KINDS:
+            return True
+        try:
+            d = Decimal(txt.strip().lstrip("+"))
+        except Exception:
+            return True
+        if not d.is_finite():
+            return True
+        return len(d.normalize().as_tuple().digits) <= (6 if kind == "float32" else 15)
+
+    combos = [x for x in combos if fits(x[0], x[1])]
+    for kind, txt, m in combos[:n]:
+        rg = rng.choice([None, R("[0:10]"), R("(-1:300]"), R("[:1e39]"), R("[-1e39:)")])
+        if m == "json-string":
+            o = O(str=True, range=rg)
+            c = {"mode": rng.choice(["json", "key"]), "type": St(F("a", P(kind) if rng.random() < 0.7 else Ptr(P(kind)), o)),
+                 "doc": dobj([("a", ds(txt))])}
+        elif m == "json-elem":
+            c = {"mode": "json", "type": St(F("a", Sl(P(kind if kind != "uint8" else "uint16")))), "doc": dobj([("a", {"a": [ds(txt)]})])}
+        else:
+            if m in ("httpx-form",) and txt == "":
+                continue
+            o = O(range=rg) if rg else None
+            c = {"mode": m, "type": St(F("a", P(kind), o)), "doc": dobj([("a", ds(txt))])}
+        c["intent"] = "boundary"
+        cases.append(finish(c))
+    return cases
+
+
+def frontends(rng, n):
+    """the same documents through the other text / map front ends of mapping"""
+    g = Gen(rng, "quick")
+    cases = []
+    tries = 0
+    while len(cases) < n and tries < 20 * n:
+        tries += 1
+        c = g.case(mode="json", depth=rng.choice([0, 1, 1, 2]))
+        d = c.get("doc")
+        if d is None or "o" not in d:
+            continue
+        mode = rng.choice(["yaml", "yaml", "toml", "toml", "jsonreader", "jsonmap"])
+        if mode in ("yaml", "toml") and not tame(d):
+            continue
+        c = {"mode": mode, "type": c["type"], "doc": d, "intent": "frontend-" + mode, "block": rng.random() < 0.5}
+        cases.append(finish(c))
+    return cases
+
+
+def parse_cases(rng, n):
+    """httpx.Parse on one struct fed from four sources at once: path variables, query (or posted
+    form) parameters, headers and a JSON body; every field belongs to one source, a few to two;
+    then the request validator"""
+    g = Gen(rng, "quick")
+    cases = []
+    for k in range(n):
+        per = {}
+        pools = {"path": ["pa", "pb"], "form": ["fa", "fb", "fc"], "header": ["ha", "hb"], "json": ["ja", "jb", "jc"]}
+        fields = []
+        for src in PARSE_ORDER:
+            cnt = rng.choice([0, 1, 1, 2]) if src != "json" else rng.choice([0, 1, 2, 3])
+            if cnt == 0:
+                per[src] = []
+                continue
+            st = g.gen_struct(1 if src == "json" else 0, "httpx-" + src, cnt, keys=pools[src][:cnt], allow_embed=False)
+            per[src] = st["f"]
+            for f in st["f"]:
+                fields.append((src, f))
+        if not fields:
+            continue
+        rng.shuffle(fields)
+        mfields = [{"key": f["key"], "t": f["t"], "o": None, "tags": {src: {"key": f["key"], "o": f["o"]}}} for src, f in fields]
+        c = {"mode": "parse", "type": St(*mfields), "req": {}, "intent": "parse"}
+        bad_src = rng.choice(PARSE_ORDER + [None, None])
+        for src in PARSE_ORDER:
+            fs = [f for s2, f in fields if s2 == src]      # the order of the struct
+            bad = None
+            if src == bad_src and fs:
+                bad = (rng.randrange(g.count_fields(fs)), rng.choice(["missing", "range", "option", "type", "overflow", "null"]))
+                if bad[1] == "null" and src != "json":
+                    bad = (bad[0], "range")
+            d = g.object_for(fs, "httpx-" + src, bad) if fs or rng.random() < 0.3 else None
+            if src == "json":
+                c["req"]["bodydoc"] = d
+                if d is not None and rng.random() < 0.08:
+                    c["req"]["ctype"] = rng.choice(["text/plain", "application/json; charset=utf-8", "", "application/x-json"])
+            else:
+                c["req"][src] = d
+        if c["req"].get("bodydoc") is None and rng.random() < 0.4:
+            c["req"]["postform"] = True
+        # a field that may come from the query or from the body (optional in both): supplied by one, or by none
+        if rng.random() < 0.5:
+            s0 = fresh("p")
+            key = rng.choice([s0, s0 + ".size", s0 + ".size"])
+            o = O(opt=True, range=R("[1:100]"))
+            idx = rng.randrange(len(mfields) + 1)
+            mfields.insert(idx, multi(key, P("int"), {"json": o, "form": o}))
+            c["type"] = St(*mfields)
+            owner = rng.choice(["json", "form", "json", None])
+            lit = rng.choice(["10", "1000"])
+            if owner == "form" or (owner == "json" and c["req"].get("postform")):
+                owner = "form"
+                c["req"].setdefault("form", None)
+                if c["req"]["form"] is None:
+                    c["req"]["form"] = dobj([])
+                c["req"]["form"]["o"].append({"k": key, "v": {"a": [ds(lit)]}})
+            elif owner == "json":
+                if c["req"].get("bodydoc") is None or c["req"].get("ctype") is not None:
+                    c["req"]["bodydoc"] = c["req"].get("bodydoc") or dobj([])
+                    c["req"].pop("ctype", None)
+                k0, v = nested_doc(key, dn(lit))
+                c["req"]["bodydoc"]["o"].append({"k": k0, "v": v})
+            c["dual"] = {str(idx): owner or "json"}
+        c["validator"] = rng.choice([None, None, "accept", "reject"])
+        cases.append(finish(c))
+    return cases
+
+
 class C08(Property):
     id = "C08"
     title = "Declarative validation: accepted input always satisfies the field constraints"
@@ -1359,9 +1807,17 @@ class C08(Property):
     def gen(self, rng, n, tier):
         # sequences first: a state leak between requests is then reported as a self-contained
         # sequence rather than as a later single request polluted by its predecessors
-        cases = sequences(rng, 120 if tier != "thorough" else 1200)
+        big = tier == "thorough"
+        _SALT[0] = 0
+        cases = crosskind(rng, 40 if not big else 400)
+        cases += sequences(rng, 120 if not big else 1200)
+        cases += parse_cases(rng, 250 if not big else 3000)
         if tier in ("quick", "thorough"):
             cases += systematic(rng)
+            cases += dotted(rng)
+            cases += tagsyntax(rng)
+        cases += boundaries(rng, 500 if not big else 6000)
+        cases += frontends(rng, 150 if not big else 1500)
         g = Gen(rng, "thorough" if tier == "thorough" else "quick")
         for _ in range(n):
             cases.append(g.case())
